@@ -249,11 +249,12 @@ class _Tick(RecurringTask):
              "RecurringTask.install_task adds itself, and what the suite's almost_equal allows) because under "
              "plain binary64 replay the formula lands within an ulp of the slot; under the solver (real "
              "arithmetic) the firing is exactly on the slot.",
-      outside="intervals/offsets that are not multiples of 125 ms (non-representable binary fractions: smtk lemma), "
+      outside="(reinstall=True: the task carried another symbolic offset from an earlier installation) "
+              "intervals/offsets that are not multiples of 125 ms (non-representable binary fractions: smtk lemma), "
               "intervals above mhi/8 s, more than fmax+1 firings, installation within 1e-6 s before a slot, "
               "negative offsets, several recurring tasks at once",
       stubs=STUBS, assumes=[EXACT])
-def recurring(d, mlo, mhi, jmax, hmax, fmax, drive="loop"):
+def recurring(d, mlo, mhi, jmax, hmax, fmax, drive="loop", reinstall=False):
     w = World()
     log = []
     m = d.pick(range(mlo, mhi + 1), 'interval/125ms')
@@ -262,6 +263,11 @@ def recurring(d, mlo, mhi, jmax, hmax, fmax, drive="loop"):
     h = d.int(0, min(hmax, fmax * m), 'horizon/125ms')
     w.clock = j / 8.0
     tick = _Tick(log, w)
+    if reinstall:
+        # the same task was installed before with another (symbolic) offset: re-installing moves it, and the
+        # offset given now - zero included - governs
+        k0 = d.int(0, m - 1, 'earlier_offset/125ms')
+        tick.install_task(interval=125 * m, offset=125 * k0)
     tick.install_task(interval=125 * m, offset=125 * k)
     if log:
         raise Violation("fired-outside-loop", at=log[0])
@@ -462,6 +468,8 @@ def instances(tier):
             for mlo, mhi in ((1, 2), (3, 6), (7, 16)):
                 out.append(Inst(recurring, dict(mlo=mlo, mhi=mhi, jmax=32, hmax=32, fmax=12, drive=drive),
                                 budget=900, path_timeout=300))
+    out.append(Inst(recurring, dict(mlo=2, mhi=4 if q else 8, jmax=8, hmax=8, fmax=4, drive="loop", reinstall=True),
+                    budget=90 if q else 600, path_timeout=120, label="reinstall"))
     for loop in ("run", "run_once"):
         if q:
             out.append(Inst(deferred, dict(loop=loop, nmin=0, nmax=3, tmax=2), budget=90))
